@@ -166,8 +166,10 @@ func (s *store) clear() error {
 	for {
 		records := s.records()
 		for _, m := range records {
+			verifTrace("wait", tx, m.key.Name, m, true)
 			m.Lock()
 			m.writeable = true
+			verifTrace("lock", tx, m.key.Name, m, true)
 			tx.lockedMetas = append(tx.lockedMetas, m)
 		}
 		s.mu.Lock()
@@ -177,16 +179,23 @@ func (s *store) clear() error {
 			cur, ok := s.metadata.Get(m.key.Name)
 			current = current && ok && cur == m
 		}
+		for _, m := range records {
+			verifTrace("valid", tx, m.key.Name, m, current)
+		}
 		if current {
 			break
 		}
 		s.mu.Unlock()
 		for _, m := range records {
+			verifTrace("unlock", tx, "", m, false)
 			m.commit()
 		}
 		tx.lockedMetas = tx.lockedMetas[:0]
 	}
 	defer s.mu.Unlock()
+	for _, m := range tx.lockedMetas {
+		verifTrace("unlink", tx, m.key.Name, m, true)
+	}
 	s.metadata.Clear()
 	return s.ss.Clear()
 }
